@@ -94,13 +94,19 @@ def c11_task(shard, tid, seed, n, src_order, dst_order, mode):
     events = []
     fps = set()
     if mode == 'all':
-        af = sweep.AllFunctions(n, src_order)
+        via = None
+        if tid % 2:
+            via = list(src_order)
+            rng.shuffle(via)             # declared in this order, then reordered to src_order
+            if via == list(src_order):
+                via = None
+        af = sweep.AllFunctions(n, src_order, via=via)
         src = af.bdd
         src_ext = dict(af.ext)
         refs = af.refs()
     else:
         af = None
-        src = mk_bdd(src_order)
+        src = mk_bdd(src_order) if tid % 2 == 0 else mk_bdd_reordered(src_order, rng)
         refs = rand_funcs(src, NAMES[:n], rng, 48)
         refs = [u * rng.choice([1, -1]) for u in refs]
         src_ext = ext_of(refs)
@@ -117,7 +123,7 @@ def c11_task(shard, tid, seed, n, src_order, dst_order, mode):
                 dst_a.add_var(nm)
             dst = dst_a._bdd
         else:
-            dst = mk_bdd(order)
+            dst = mk_bdd(order) if rng.random() < 0.5 else mk_bdd_reordered(order, rng)
         pre = rand_funcs(dst, order[:3], rng, 2)
         dst_ext = ext_of(pre)
         ev = Ev('copy', route, names, src, src_ext, dst, dst_ext)
@@ -358,6 +364,12 @@ def c12_trace(tid, rng, work, fps):
         if da is not sa and len(da.vars) >= 1:
             pre = [da.var(sorted(da.vars)[0])]
         fn = os.path.join(work, 'h_%d.json' % tid)
+        if case == 0:
+            # a rejected load (unopenable file) must not poison later dumps/loads
+            try:
+                da.load(os.path.join(work, 'no_such_dir', 'missing.json'))
+            except Exception:
+                pass
         must = not (load_order and target == 'extra')
         ev = Ev('io', 'json', names, sa, ext_of(fs), da, ext_of(fs if da is sa else pre),
                 must_accept=must, same_manager=(da is sa), may_declare=True,
